@@ -505,7 +505,20 @@ impl MetaIterator {
 
 impl KotoIterator for MetaIterator {
     fn make_copy(&self) -> Result<KIterator> {
-        Ok(KIterator::new(self.clone()))
+        // The iteration position of an `@next` object lives in the map's data, so the copy needs
+        // its own data (as `koto.copy` does for maps); the metamap stays shared.
+        let iterator = match &self.iterator {
+            KValue::Map(m) => KValue::Map(KMap::with_contents(
+                m.data().clone(),
+                m.meta_map().map(|meta| meta.borrow().clone()),
+            )),
+            other => other.clone(),
+        };
+        Ok(KIterator::new(Self {
+            vm: self.vm.spawn_shared_vm(),
+            iterator,
+            is_bidirectional: self.is_bidirectional,
+        }))
     }
 
     fn is_bidirectional(&self) -> bool {
